@@ -126,6 +126,7 @@ def p_c14(facts, rep, tier):
     n6 = errflow.r6_completion_source(facts, rep) + errflow.r6b_classifier(facts, rep)
     rep.floor("R6 obligations", n6, 4)
     n6s, n6c = errflow.r6c_backend_feeds_classifier(facts, rep)
+    errflow.r8_partial_io_counts(facts, rep)
     rep.floor("R6 back-end call sites of the classifier fed by io_uring", n6s, 1)
     import termination
 
@@ -201,13 +202,17 @@ def p_c19(facts, rep, tier):
         "list's length. U4 overflow pages of replaced values are released: in LeafUpdater::keep_up_to every path from the lookup of the changed key to the return "
         "examines the `found` flag, with it the replaced cell's overflow flag, and with that invokes the deleted-overflow callback; LeafUpdater::ingest passes the "
         "callback on; the leaf stage's callback stores the cell in LeafWorkerOutput.overflow_deleted, which is drained into overflow::delete with the stage's "
-        "freed_pages. The page arithmetic (every page below the frontier in use or free, frontier not growing over fill/empty cycles, the count being right) is not decided."
+        "freed_pages. U5 the free list's own pages: every entry taken out of FreeList.portions is followed on every path by a push to released_portions or by "
+        "putting an entry back; no bulk removal. The page arithmetic (every page below the frontier in use or free, frontier not growing over fill/empty cycles, the count being right) is not decided."
     )
-    n1, n2, n3, n4 = reclaim.run(facts, rep)
+    n1, n2, n3, n4, n5 = reclaim.run(facts, rep)
+    rep.floor("U5 removals from FreeList.portions", n5, 2)
     rep.floor("U1 occupancy obligations", n1, 8)
     rep.floor("U2 freed-page flow obligations", n2, 8)
     rep.floor("U3 obligations", n3, 2)
-    rep.floor("U4 overflow-release obligations", n4, 8)
+    if not any(v["rule"] == "U4" for v in rep.violations):
+        # a broken link of the chain is reported as a violation (and cuts the chain short), never as a floor failure
+        rep.floor("U4 overflow-release obligations", n4, 8)
     rep.assume("path feasibility is ignored", "MetaMap::set_full / set_tombstone / full_count do what their names say (bitbox/meta_map.rs is not analysed beyond its call sites)")
     rep.trust("rustc MIR (nightly, mir-opt-level=0)", "rules/reclaim.py anchors")
 
@@ -221,12 +226,13 @@ def p_c20(facts, rep, tier):
         "lock call dominates all its file creations (D1); Flock::lock yields a Flock only on the Ok arm of try_lock_exclusive, which calls "
         "flock with constant flags LOCK_EX|LOCK_NB and is called from nowhere else (D2); the Flock flows into store::Shared.flock and "
         "Drop for Shared joins the I/O pool before releasing it (D3); LOCK_UN only from <Flock as Drop>::drop (D4); Flock is not Clone and "
-        "its descriptor is never duplicated (D5). Kernel flock semantics and the documented creation TOCTOU are not decided."
+        "its descriptor is never duplicated (D5); no raw libc call creates a descriptor without O_CLOEXEC (D6: a descriptor inherited by a child would keep the directory locked after the owner died); every task a sync spawns is joined on every path to every return of Sync::sync, error exits included (D7: a failed commit must not hand back control with a writer alive). Kernel flock semantics and the documented creation TOCTOU are not decided."
     )
     ctx = sync_ctx(facts)
     n = dirlock.run(facts, rep, ctx.events, ctx.model)
+    n += dirlock.d7_no_writer_outlives_sync(rep, ctx)
     rep.floor("dirlock obligations", n, 18)
-    rep.assume("flock(2) with LOCK_EX|LOCK_NB excludes other open file descriptions, across processes", "thread pools other than the io pool are not joined on drop (see DESIGN.md F7)")
+    rep.assume("flock(2) with LOCK_EX|LOCK_NB excludes other open file descriptions, across processes", "thread pools other than the io pool are not joined on drop: D7 shows that no task is pending when a sync returns, a panic inside a sync is not covered")
     rep.trust("rustc MIR (nightly, mir-opt-level=0)", "rules/fileclass.py", "libc constant values LOCK_EX=2, LOCK_NB=4, LOCK_UN=8 (linux)")
 
 
